@@ -67,3 +67,15 @@ Fixpoint brun (b : builder) (acc : Z) (calls : list bcall) : builder * Z :=
               end
   end.
 
+
+(** ---- the point an RTH entry's trajectory must end at ---- *)
+Definition rth_neck_target (e : rth_entry) (start : vec4) : vec4 :=
+  if negb (Qeq_bool (re_neck e) 0) || fnonzero (re_neck_duration e)
+  then mkvec4 (vx start) (vy start) (fadd (vz start) (re_neck e)) (vyaw start) else start.
+
+Definition rth_final_target (e : rth_entry) (start : vec4) : vec4 :=
+  let t1 := rth_neck_target e start in
+  let a := re_action e in
+  if a =? SB_RTH_ACTION_LAND then t1
+  else if a =? SB_RTH_ACTION_GO_TO_KEEPING_ALTITUDE then mkvec4 (fst (re_target e)) (snd (re_target e)) (vz t1) (vyaw t1)
+  else mkvec4 (fst (re_target e)) (snd (re_target e)) (re_altitude e) (vyaw t1).
